@@ -140,11 +140,45 @@ def outcome(got):
     return ("internal", type(got[1]).__name__, got[2])
 
 
-def compare(ast, sm, schema, text, overrides):
+def handler_calls(ast, handler):
+    """What the composite handler of a load delivers: -> (len, [(name, value digest) ...])"""
+    import warnings
+    names = set()
+    if ast.get("handler"):
+        names.add(ast["handler"].lower())
+    for cont in [ast] + ast["types"]:
+        for it in cont["items"]:
+            if it.get("handler"):
+                names.add(it["handler"].lower())
+    calls = []
+    rec = {n: (lambda v, n=n: calls.append((n, digest.digest(v)))) for n in names}
+    with warnings.catch_warnings():
+        warnings.simplefilter("ignore")
+        handler(rec)
+    return len(handler), calls
+
+
+def copies(cfg):
+    """copy.deepcopy and a pickle round trip of a returned configuration -> comparable summary"""
+    import copy
+    import pickle
+    out = []
+    for label, fn in (("deepcopy", copy.deepcopy), ("pickle", lambda c: pickle.loads(pickle.dumps(c)))):
+        try:
+            out.append((label, "ok", digest.digest(fn(cfg))))
+        except RecursionError:
+            out.append((label, "RecursionError", None))
+        except Exception as e:  # noqa
+            out.append((label, type(e).__name__, None))
+    return out
+
+
+def compare(ast, sm, schema, text, overrides, extras=False):
     """overrides: list of [path list, value].  -> (kind, [(sig, detail)])"""
     out = []
     specs = [spec(p, v) for p, v in overrides]
-    with_ov = outcome(loadcheck.real_load(schema, text, url=MAIN, overrides=specs))
+    raw_ov = loadcheck.real_load(schema, text, url=MAIN, overrides=specs)
+    with_ov = outcome(raw_ov)
     if with_ov[0] == "internal":
         out.append(("internal:%s:%s" % (with_ov[1], with_ov[2]), "overrides %r" % (specs,)))
         return "internal", out
@@ -187,6 +221,22 @@ def compare(ast, sm, schema, text, overrides):
         d = digest.first_diff(by_edit[1], with_ov[1])
         if d:
             out.append(("override-differs-from-edit:tree", "%s ; overrides %r" % (d, specs)))
+        else:
+            # what else the two loads return: the composite handler, and objects that can be
+            # copied and pickled (or cannot) alike
+            try:
+                h1, h2 = handler_calls(ast, raw_ov[2]), handler_calls(ast, raw_edit[2])
+            except Exception as e:  # noqa
+                h1, h2 = ("handler raises", type(e).__name__), None
+            if h1 != h2:
+                out.append(("override-differs-from-edit:handler", "%r with overrides, %r for the edited text ; overrides %r"
+                            % (str(h1)[:200], str(h2)[:200], specs)))
+            if extras:
+                c1, c2 = copies(raw_ov[1]), copies(raw_edit[1])
+                for a_, b_ in zip(c1, c2):
+                    if a_[:2] != b_[:2] or (a_[1] == "ok" and (digest.first_diff(b_[2], a_[2]) or digest.first_diff(with_ov[1], a_[2]))):
+                        out.append(("override-differs-from-edit:%s" % a_[0], "%s with overrides, %s for the edited text ; overrides %r"
+                                    % (a_[1], b_[1], specs)))
     elif by_edit[1] == "DataConversionError" and with_ov[1] != "DataConversionError" \
             and getattr(raw_edit[1], "value", None) in [v.replace("$", "$$") for _p, v in overrides] \
             and all(refload.KEYTYPES[kt_](p_[-1])[0] == "ok" for p_, _v in overrides for kt_ in refload.KEYTYPES):
@@ -285,7 +335,7 @@ def evaluate(case):
                 or p[-1][0] in "<%#" or "(" in p[-1] or ")" in p[-1]:
             return []
     try:
-        _, fl = compare(case["schema"], sm, schema, case["text"], case["overrides"])
+        _, fl = compare(case["schema"], sm, schema, case["text"], case["overrides"], extras=True)
     except Exception:
         return []
     return [failure(sig, case, d) for sig, d in fl]
@@ -375,7 +425,7 @@ def run_shard(spec_):
     counters = collections.Counter()
     for i in range(spec_["lo"], spec_["hi"]):
         rng = loadcheck.case_rng(spec_["seed"] + 1414, i)
-        ast = gen.gen_schema(rng)
+        ast = gen.gen_schema(rng, handlers=i % 3 == 0)
         sm = refload.compile_schema(ast)
         try:
             schema, xml = loadcheck.load_schema(ast)
@@ -398,7 +448,7 @@ def run_shard(spec_):
             for _o in range(4):
                 overrides, nt = gen_overrides(rng, sm, text)
                 res.evaluations += 1
-                kind, fl = compare(ast, sm, schema, text, overrides)
+                kind, fl = compare(ast, sm, schema, text, overrides, extras=(i + _o) % 6 == 0)
                 counters["outcome:" + kind] += 1
                 counters["depth:%d" % max(len(p) - 1 for p, _ in overrides)] += 1
                 if nt:
